@@ -474,3 +474,84 @@ func FuzzC03_Decode(f *testing.F) {
 		fuzzReport(t, "C03", checkC03Dec(c), c)
 	})
 }
+
+// ---- target 6: failing user-defined functions ----------------------------------------------------------
+
+type c03Fail struct {
+	Text string `json:"text"`
+	Safe bool   `json:"safe"`
+}
+
+type customPanic struct{ code int }
+
+// failingFunctions: delegated functions that fail in every way a function can (panic with a string, an
+// error, an arbitrary value, a runtime error; return an error; hit the Variant API's own string panics).
+func failingFunctions() functions.IFunctionCollection {
+	fc := functions.NewDefaultFunctionCollection()
+	add := func(name string, f functions.FunctionCalculator) { fc.Add(functions.NewDelegatedFunction(name, f)) }
+	add("PanicStr", func(p []*variants.Variant, o variants.IVariantOperations) (*variants.Variant, error) { panic("boom") })
+	add("PanicErr", func(p []*variants.Variant, o variants.IVariantOperations) (*variants.Variant, error) {
+		panic(fmt.Errorf("boom"))
+	})
+	add("PanicVal", func(p []*variants.Variant, o variants.IVariantOperations) (*variants.Variant, error) {
+		panic(customPanic{42})
+	})
+	add("PanicRuntime", func(p []*variants.Variant, o variants.IVariantOperations) (*variants.Variant, error) {
+		var m map[string]int
+		m["x"] = 1
+		return variants.VariantFromInteger(1), nil
+	})
+	add("Fail", func(p []*variants.Variant, o variants.IVariantOperations) (*variants.Variant, error) {
+		return nil, fmt.Errorf("failed on purpose")
+	})
+	add("Third", func(p []*variants.Variant, o variants.IVariantOperations) (*variants.Variant, error) {
+		return variants.VariantFromArray(p).GetByIndex(2), nil // the Variant API panics with a string for short lists
+	})
+	add("Seven", func(p []*variants.Variant, o variants.IVariantOperations) (*variants.Variant, error) {
+		return variants.VariantFromInteger(7), nil
+	})
+	return fc
+}
+
+func checkC03Fail(c c03Fail) *evid.Fail {
+	var res *evid.Fail
+	if g := guard(func() {
+		calc := calculator.NewExpressionCalculator()
+		calc.SetVariantOperations(opsManager(c.Safe))
+		if err := calc.SetExpression(c.Text); err != nil {
+			return
+		}
+		v, err := calc.EvaluateUsingVariablesAndFunctions(makeVars(c03Assignments[1]), failingFunctions())
+		if res = exactlyOne("Evaluate", v, err); res != nil {
+			res.Msg = fmt.Sprintf("%q with failing user functions: %s", c.Text, res.Msg)
+		}
+	}); g != nil {
+		g.Msg = fmt.Sprintf("expression %q with failing user functions: %s", c.Text, g.Msg)
+		return g
+	}
+	return res
+}
+
+func init() { regReplay("C03.fail", checkC03Fail) }
+
+func TestC03_EnumFailingFunctions(t *testing.T) {
+	rec := evid.New("C03", "TestC03_EnumFailingFunctions", "C03.fail", c03Rule+"; failing functions: every way a delegated function can fail (panic with a string / error / arbitrary value / runtime error, returned error, Variant API panic) in every calling context")
+	rec.Exhaustive = true
+	rec.DupFree = true
+	defer finish(t, rec)
+	calls := []string{"PanicStr()", "PanicErr()", "PanicVal()", "PanicRuntime()", "Fail()", "Third(1, 2)", "Third(1, 2, 3)", "Seven()", "PanicStr(a, b)", "Third()"}
+	contexts := []string{"%s", "1 + %s", "%s + 1", "Max(%s, 1)", "Max(1, %s)", "Sum(%s, %s)", "NOT %s", "- %s", "%s[0]", "a IN Array(%s)", "If(%s, 1, 2)", "If(TRUE, 1, %s)", "%s IS NULL", "(%s) = (%s)", "Array(%s, 2)[0]", "Seven() + %s * 2"}
+	rec.Bounds = fmt.Sprintf("%d failing / succeeding user function calls x %d calling contexts x 2 managers", len(calls), len(contexts))
+	for _, call := range calls {
+		for _, ctx := range contexts {
+			for _, safe := range []bool{false, true} {
+				text := strings.ReplaceAll(ctx, "%s", call)
+				c := c03Fail{text, safe}
+				rec.Case(jsonStr(c), true, func() interface{} { return c })
+				if f := checkC03Fail(c); f != nil {
+					rec.Fail(f, c)
+				}
+			}
+		}
+	}
+}
